@@ -184,12 +184,15 @@ class Ctx:
         else:
             raise CheckError("unknown flavor " + flavor)
         fl = fl + list(extra)
+        # the repository mixes plain malloc()/free() with SUPERLU_MALLOC/SUPERLU_FREE (sp_colorder.c, qrnzcnt.c,
+        # cholnzcnt.c, p?memory.c); with an interposed USER_MALLOC every library allocation must go the same way
+        lib_only = ["-Dmalloc=verif_malloc", "-Dfree=verif_free"] if flavor.startswith("fault") else []
         src = sorted(f for f in glob.glob(os.path.join(REPO, "SRC", "*.c"))
                      if os.path.basename(f) != "sp_ienv.c")
         cb = sorted(f for f in glob.glob(os.path.join(REPO, "CBLAS", "*.c"))
                     if not os.path.basename(f).endswith("myblas2.c"))   # stale copies, not in CBLAS/Makefile
-        objs = self.cc_objects(src, fl, flavor) + \
-            self.cc_objects(cb, fl + ["-I" + os.path.join(REPO, "CBLAS")], flavor + "-cblas")
+        objs = self.cc_objects(src, fl + lib_only, flavor) + \
+            self.cc_objects(cb, fl + lib_only + ["-I" + os.path.join(REPO, "CBLAS")], flavor + "-cblas")
         tag = sha(*objs)[:16]
         lib = os.path.join(BUILD, "libcache", "libslu_%s_%s.a" % (flavor, tag))
         if not os.path.exists(lib):
